@@ -1,0 +1,13 @@
+//go:build verif
+
+// Contracts for the deductive verifier in /verif (icsvc). Comment-only: this file contributes no code.
+
+package types
+
+// ---------------------------------------------------------------- C14: the signer of a validator message is the validator's operator
+
+//@ func validateProviderAddress
+//@ let va := sdk.ValAddressFromBech32(addr)
+//@ ensures [signer] result == nil ==> va.1 == nil && sdk.AccAddress(va.0).String() == signer
+//@ ensures [mismatch] va.1 == nil && sdk.AccAddress(va.0).String() != signer ==> result != nil
+//@ ensures [bad-address] va.1 != nil ==> result != nil
